@@ -486,7 +486,7 @@ func ZZVerifC12() {
 	bounds[mcrt.Order] = 1   // the crash may follow one map iteration (manifests, layers to prune) in a non-default order
 	bounds[mcrt.Preempt] = 1 // or one non-default schedule of the download goroutines
 	total := 2
-	budget := 100 * gotime.Second
+	budget := 200 * gotime.Second
 	if thorough {
 		bounds[mcrt.Crash] = 2 // a second crash during the start-up repair or the repeated operation
 		total = 3
